@@ -33,6 +33,7 @@ fn main() {
         (Some("replay"), Some("itevec")) => vec_replay::replay_itevec(&args),
         (Some("replay"), Some("smoothvec")) => vec_replay::replay_smoothvec(&args),
         (Some("replay"), Some("mmapvec")) => vec_replay::replay_mmapvec(&args),
+        (Some("replay"), Some("stressvec")) => vec_replay::replay_stressvec(&args),
         (Some("replay"), Some("meuvec")) => vec_replay::replay_meuvec(&args),
         (Some("replay"), Some("wmcvec")) => vec_replay::replay_wmcvec(&args),
         (Some("replay"), Some("cnfvec")) => cnf_replay::replay_cnfvec(&args),
